@@ -98,6 +98,11 @@ def impl_violation(op, line):
     """Spec oracle on the implementation's reply alone."""
     cls, kv = fields(line)
     rpc = op.split(" ")[1] if op.startswith("req ") else "?"
+    injected = op.startswith("req ") and op.split(" ")[2] == "p"      # engine panic injected by the harness
+    if cls == "nilnil" and injected:
+        cls = "recovered"                                               # the expected outcome of a recovering handler
+    if cls == "resp" and injected:
+        return "%s: the injected engine panic did not reach the handler (harness)" % rpc
     if cls in ("nilnil", "panic"):
         return "%s: %s" % (rpc, SPEC_TEXT[cls])
     if cls == "hang":
